@@ -426,7 +426,7 @@ def shrink_pair(sys, order_a, order_b, fails_pair, budget=200):
             if fails_pair(cand, o2, crel):
                 cur, orel, progress = cand, o2, True
     ident = (list(range(len(cur["objects"]))), list(range(len(cur["constraints"]))))
-    return cur, [ident, (orel, crel)]
+    return json_copy(cur), [ident, (orel, crel)]          # without the caches
 
 
 # ------------------------------------------------------------------------------------------------ generator
@@ -765,6 +765,81 @@ def witness_volume_bound():
             "max_iter": 1000}
 
 
+def staggered_system(rng=None, depth=1, n_axes=2, delayed_first=True, dependents=1, da=0, free_dep=False):
+    """multi-axis PositionConstraint whose axes become resolvable in DIFFERENT passes.
+
+    A is placed relative to the volume by ONE PositionConstraint over `n_axes` axes; its size on the delayed axis
+    `da` comes from a SizeConstraint on C1, which is positioned by a later constraint (and, for depth 2-3, gets its
+    own size on `da` from C2, ... — a chain), so axis `da` of A's constraint resolves `depth+1` passes after its
+    other axes.  `dependents` objects D are placed relative to A on axis `da` (lower side on A's upper side) and are
+    otherwise left to the extension-to-infinity step.  The constraints are LISTED in reverse dependency order
+    (dependents first, every consumer before its producer), which maximises the number of passes: the identity
+    order is the adversarial one."""
+    pick = (lambda xs: rng.choice(xs)) if rng is not None else (lambda xs: xs[0])
+    N = pick([10, 9, 12])
+    o = lambda n, v, g: {"name": n, "vol": v, "gshape": list(g), "rshape": [None] * 3, "rpos": [None] * 3}
+    objs = [o("vol", True, (N, N, N))]
+    cons_rev = []                                    # in dependency order; reversed at the end
+    others = [a for a in range(3) if a != da]
+    # chain C_depth ... C_1 : C_k's size on `da` comes from C_{k+1}; the last one is static
+    chain_ids = []
+    for k in range(depth, 0, -1):
+        g = [pick([2, 3]), pick([2, 3]), pick([2, 3])]
+        if k < depth:
+            g[da] = None
+        objs.append(o(f"C{k}", False, g))
+        cid = len(objs) - 1
+        axes = [da] + ([others[0]] if pick([True, False]) else [])
+        if len(axes) == 2 and pick([True, False]):
+            axes = axes[::-1]
+        pc = {"t": "P", "o": cid, "other": 0, "axes": axes, "own": [-1.0] * len(axes), "otherpos": [-1.0] * len(axes),
+              "margins": [0.0] * len(axes), "gmargins": [pick([0, 1])] * len(axes)}
+        if k < depth:
+            cons_rev.append({"t": "S", "o": cid, "other": chain_ids[-1], "axes": [da], "other_axes": [da], "props": [1.0],
+                             "offsets": [0.0], "goffsets": [pick([0, 1])]})
+        cons_rev.append(pc)
+        chain_ids.append(cid)
+    c1 = chain_ids[-1]
+    # A
+    gA = [2, 2, 2]
+    gA[da] = None
+    objs.append(o("A", False, gA))
+    aid = len(objs) - 1
+    cons_rev.append({"t": "S", "o": aid, "other": c1, "axes": [da], "other_axes": [da], "props": [1.0], "offsets": [0.0],
+                     "goffsets": [0]})
+    axesA = ([da] + others[: n_axes - 1]) if delayed_first else (others[: n_axes - 1][:1] + [da] + others[: n_axes - 1][1:])
+    if not delayed_first and n_axes == 2:
+        axesA = [da, others[0]]                       # the delayed axis must not be the LAST one
+    cons_rev.append({"t": "P", "o": aid, "other": 0, "axes": axesA, "own": [-1.0] * len(axesA), "otherpos": [-1.0] * len(axesA),
+                     "margins": [0.0] * len(axesA), "gmargins": [pick([1, 2])] * len(axesA)})
+    # dependents
+    for j in range(dependents):
+        gD = [1, 1, 1]
+        if free_dep:
+            gD[others[j % 2]] = None                  # a free axis: spans the volume
+        objs.append(o(f"D{j}", False, gD))
+        did = len(objs) - 1
+        cons_rev.append({"t": "P", "o": did, "other": aid, "axes": [da], "own": [-1.0], "otherpos": [1.0],
+                         "margins": [0.0], "gmargins": [j]})
+    return {"grid": {"kind": "uniform", "spacing": pick([1.0, 0.5])}, "objects": objs, "constraints": cons_rev[::-1],
+            "max_iter": 1000}
+
+
+def staggered_systems(rng, n_random=6):
+    """fixed core (depth 1: four constraints, every permutation is tried by C27) + random variants (depth 1-3)"""
+    out = []
+    for da in (0, 2):
+        for n_axes in (2, 3):
+            out.append(staggered_system(None, depth=1, n_axes=n_axes, delayed_first=True, dependents=1, da=da))
+    out.append(staggered_system(None, depth=1, n_axes=3, delayed_first=False, dependents=1, da=1))
+    out.append(staggered_system(None, depth=2, n_axes=2, delayed_first=True, dependents=1, da=0, free_dep=True))
+    for _ in range(n_random):
+        out.append(staggered_system(rng, depth=rng.choice([1, 1, 2, 2, 3]), n_axes=rng.choice([2, 3]),
+                                    delayed_first=rng.chance(0.6), dependents=rng.choice([1, 1, 2]), da=rng.randint(0, 2),
+                                    free_dep=rng.chance(0.4)))
+    return out
+
+
 def small_systems():
     """systematic small family for the failing-input search: two objects A, B on one axis, every triple of
     pieces out of {grid coords of A, grid coords of B, A relative to B, B relative to A, sizes}"""
@@ -854,4 +929,4 @@ def shrink(sys, fails, budget=300):
             d = fails(cand)
             if d:
                 cur, detail, progress = cand, d, True
-    return cur, detail
+    return json_copy(cur), detail          # without the caches
